@@ -51,12 +51,14 @@ def run(chk, repo, tier):
         'unique': nf.app('any', nf.app('eq', nf.index(val, Slice(C(1), NONE)) - nf.index(val, Slice(NONE, C(-1))), C(0))),
     }
     store_paths = [p for p in paths if p.status != 'raise']
-    for name, term in checks.items():
-        guarded = bool(store_paths) and all(any(c == term and pol is False for c, pol, _ in p.conds) for p in store_paths)
-        refused = any(p.status == 'raise' and p.exc == 'ValueError' and p.conds and p.conds[-1][0] == term and p.conds[-1][1]
-                      for p in paths)
+    from ..interp import canon_cond
+    for name, term0 in checks.items():
+        term, taken = canon_cond(term0, True)       # recorded conditions are canonical (`not x` taken = `x` not taken)
+        guarded = bool(store_paths) and all(any(c == term and pol is (not taken) for c, pol, _ in p.conds) for p in store_paths)
+        refused = any(p.status == 'raise' and p.exc == 'ValueError' and p.conds and p.conds[-1][0] == term
+                      and p.conds[-1][1] is taken for p in paths)
         chk.ob('C15-a', 'D-dominance', f'{SPEC}.wave#setter', f'`{name}` validation precedes the store and raises ValueError',
-               guarded and refused, f'expected test {fmt(term)}', setter.loc())
+               guarded and refused, f'expected test {fmt(term0)}', setter.loc())
     okst = all(any(e.kind == 'write' and e.data.get('attr') == '_wave' and e.data.get('value') == val for e in p.events)
                for p in store_paths)
     chk.ob('C15-a', 'D-dominance', f'{SPEC}.wave#setter', 'stores the validated array', okst and bool(store_paths), '', setter.loc())
